@@ -882,6 +882,20 @@ class Scheduler:
             self.xtrigger_mgr.load_xtrigger_for_restart)
         self.workflow_db_mgr.pri_dao.select_abs_outputs_for_restart(
             self.pool.load_abs_outputs_for_restart)
+        # Absolute outputs are committed as they complete but the pool's
+        # prerequisites only once per main loop iteration, so re-apply them to
+        # the restored tasks (as is done for newly spawned ones).
+        if self.pool.abs_outputs_done:
+            abs_outputs = [
+                Tokens(cycle=cycle, task=task, task_sel=output)
+                for cycle, task, output in self.pool.abs_outputs_done
+            ]
+            for itask in self.pool.get_tasks():
+                if (
+                    itask.tdef.has_abs_triggers
+                    and itask.state.prerequisites_are_not_all_satisfied()
+                ):
+                    itask.satisfy_me(abs_outputs)
 
         self.pool.load_db_tasks_to_hold()
         self.pool.update_flow_mgr()
